@@ -625,10 +625,10 @@ namespace chaiscript {
         const Boxed_Value &bv = params[0];
         if (bv.is_const()) {
           const Class *o = boxed_cast<const Class *>(bv, &t_conversions);
-          return do_call_impl<T>(o);
+          return do_call_impl<T>(chaiscript::detail::throw_if_null(o));
         } else {
           Class *o = boxed_cast<Class *>(bv, &t_conversions);
-          return do_call_impl<T>(o);
+          return do_call_impl<T>(chaiscript::detail::throw_if_null(o));
         }
       }
 
